@@ -285,6 +285,25 @@ func (v *Verifier) LoadSpecFile(path string, pkgPath string, lib bool) error {
 	if err != nil {
 		return err
 	}
+	if v.c.Sorts.Resolve == nil {
+		v.c.Sorts.Resolve = func(name string) *Sort {
+			if so, _, err := v.resolveType(name); err == nil {
+				return so
+			}
+			return nil
+		}
+	}
+	// aliases first: sort definitions may mention them
+	for _, a := range sf.Aliases {
+		gt, err := v.lookupGoType(a[1])
+		if err != nil {
+			if lib {
+				continue // package not loaded for this property
+			}
+			return fmt.Errorf("%s: alias %s: %v", path, a[0], err)
+		}
+		v.aliases[a[0]] = gt
+	}
 	for _, s := range sf.Sorts {
 		if s[1] == "" {
 			v.c.Sorts.Unint(s[0])
